@@ -199,9 +199,10 @@ class LibraryController:
         """
         validation.check_uris(uris)
 
+        backends_to_uris = self._get_backends_to_uris(uris)
         futures = {
             backend: backend.library.get_images(backend_uris)
-            for (backend, backend_uris) in self._get_backends_to_uris(uris).items()
+            for (backend, backend_uris) in backends_to_uris.items()
             if backend_uris
         }
 
@@ -212,7 +213,7 @@ class LibraryController:
                     continue
                 validation.check_instance(future.get(), Mapping)
                 for uri, images in future.get().items():
-                    if uri not in uris:
+                    if uri not in (backends_to_uris[backend] or ()):
                         msg = f"Got unknown image URI: {uri}"
                         raise exceptions.ValidationError(msg)
                     validation.check_instances(images, Image)
